@@ -1,0 +1,87 @@
+//go:build verif
+
+// Add-only export for the verification harness in /verif (property C08):
+// runs a straight-line instruction sequence on a real Stack and intPool and
+// observes the POINTER structure after every step.  Compiled only with -tags verif.
+
+package vm
+
+import (
+	"fmt"
+	"math/big"
+)
+
+// VerifAliasStep is one instruction: opcode, and for PUSH32 the constant.
+type VerifAliasStep struct {
+	Op    byte
+	Const *big.Int
+}
+
+// VerifAliasRun executes the steps (stack-only instructions of the named table)
+// with one shared intPool, exactly as Interpreter.Run calls them (validateStack,
+// then execute).  After every step it checks that the *big.Int pointers on the
+// stack are pairwise distinct and that none of them is in the pool.  Returns
+// the final stack (top first), the first aliasing found ("" if none) and an
+// error string for a failed validation / execution.
+func VerifAliasRun(table string, steps []VerifAliasStep) (final []*big.Int, aliasing string, errs string) {
+	tab := verifTable(table)
+	if tab == nil {
+		return nil, "", "no table"
+	}
+	evm, c := verifProbeEnv(nil)
+	st := newstack()
+	mem := NewMemory()
+	defer func() {
+		if r := recover(); r != nil {
+			errs = fmt.Sprintf("panic: %v", r)
+		}
+	}()
+	for i, s := range steps {
+		op := tab[s.Op]
+		if !op.valid {
+			return nil, aliasing, fmt.Sprintf("step %d: invalid opcode", i)
+		}
+		if s.Op >= 0x60 && s.Op <= 0x7f {
+			n := int(s.Op-0x60) + 1
+			code := make([]byte, 1+n)
+			code[0] = s.Op
+			b := s.Const.Bytes()
+			if len(b) > n {
+				b = b[len(b)-n:]
+			}
+			copy(code[1+n-len(b):], b)
+			c.Code = code
+		} else {
+			c.Code = []byte{s.Op}
+		}
+		if err := op.validateStack(st); err != nil {
+			return nil, aliasing, fmt.Sprintf("step %d: %v", i, err)
+		}
+		pc := uint64(0)
+		if _, err := op.execute(&pc, evm, c, mem, st); err != nil {
+			return nil, aliasing, fmt.Sprintf("step %d: %v", i, err)
+		}
+		if aliasing == "" {
+			seen := map[*big.Int]int{}
+			for j, p := range st.data {
+				if k, dup := seen[p]; dup {
+					aliasing = fmt.Sprintf("after step %d (op 0x%02x): stack slots %d and %d hold the same *big.Int", i, s.Op, k, j)
+					break
+				}
+				seen[p] = j
+			}
+			if aliasing == "" {
+				for _, p := range evm.interpreter.intPool.pool.data {
+					if k, on := seen[p]; on {
+						aliasing = fmt.Sprintf("after step %d (op 0x%02x): stack slot %d is also in the intPool", i, s.Op, k)
+						break
+					}
+				}
+			}
+		}
+	}
+	for i := st.len() - 1; i >= 0; i-- {
+		final = append(final, new(big.Int).Set(st.data[i]))
+	}
+	return final, aliasing, ""
+}
